@@ -1105,10 +1105,17 @@ func (fx *FnExec) binop(st *State, op token.Token, x, y Term, xt, yt, rt types.T
 		}
 		fx.declPow2()
 		p := App("pow2", SInt, y)
+		// a shift count of the operand width or more: Go yields 0 (or -1 for a negative signed operand
+		// shifted right); the pow2 table only covers counts below 64
+		big := App(">=", SBool, y, IntLit(int64(bits)))
 		if op == token.SHL {
-			return fx.wrap(App("*", SInt, x, p), rt)
+			return Ite(big, TZero, fx.wrap(App("*", SInt, x, p), rt))
 		}
-		return App("div", SInt, x, p)
+		over := TZero
+		if signed {
+			over = Ite(App("<", SBool, x, TZero), IntLit(-1), TZero)
+		}
+		return Ite(big, over, App("div", SInt, x, p))
 	case token.AND, token.OR, token.XOR, token.AND_NOT:
 		if x.Sort == SBool {
 			switch op {
